@@ -13,7 +13,7 @@ META = {
     'exhaustive': True,
     'rule_text': 'one obligation per query parameter of each handler (reaches exactly the library parameter of the same meaning, through the '
                  'input-angle converter iff it is an angle), per JSON key (is the return slot of that meaning, through the output-angle '
-                 'converter iff it is an angle), per dispatch-table entry, per default, for the status code and for the index route',
+                 'converter iff it is an angle), per dispatch-table entry, per default, for the status code and for the index route; the input table may use any typed HP -> accepted-notation conversion of geodepy.angles (equivalent converters are not reported)',
     'explanation': 'Static: both handlers are abstractly evaluated with flask\'s request.args.get modelled as a symbolic query lookup and the '
                    'library calls kept as opaque call atoms; the JSON dictionary handed to jsonify is compared key by key with the reference '
                    'wiring. The dispatch tables, defaults and the index route are read from the syntax tree. The handlers contain no '
